@@ -200,7 +200,9 @@ Proof.
     try contradiction;
   destruct (conv s (qv q') (P0, qbase q) (vol_unit cf')) as [vta'|]; destruct (conv s (qv q') (P0, qbase q) (stored_unit cf' s)) as [ata'|];
     simpl in P1, P2; try contradiction; try reflexivity.
-  destruct Hconv as [Hvt Hat]. unfold optQeq in P1, P2. rewrite P1 in Hvt. rewrite P2 in Hat.
+  destruct Hconv as [Hvt0 Hat0]. clear H1.
+  assert (Hvt : vta * pv == vta' * pv') by (apply (Qeq_trans _ (vta0 * pv')); [exact Hvt0 | apply Qmult_comp; [exact P1 | reflexivity]]).
+  assert (Hat : ata * msc cf s == ata' * msc cf' s) by (apply (Qeq_trans _ (ata0 * msc cf' s)); [exact Hat0 | apply Qmult_comp; [exact P2 | reflexivity]]).
   assert (E1 : Qltb (rnd ata) 0 = Qltb (rnd ata') 0).
   { apply (scaled_Qltb _ _ _ _ (msc cf s) (msc cf' s) (msc_pos cf s) (msc_pos cf' s)); [rewrite !rnd_eq; exact Hat | ring]. }
   assert (E2 : Qltb (rnd vta) 0 = Qltb (rnd vta') 0).
@@ -215,14 +217,16 @@ Qed.
 Lemma transfer_ratio_R src src' q : R src src' -> Rres Qeq (transfer_ratio cf src q) (transfer_ratio cf' src' q).
 Proof.
   intros [Hn Hc Hv Hm]. unfold transfer_ratio. destruct (qbase q).
-  - rewrite (Qeqb0_proper _ _ (total_act_R _ _ Hc)). destruct (Qeqb (total_act (cont src')) 0); simpl; [reflexivity|].
-    rewrite (total_act_R _ _ Hc). reflexivity.
+  - rewrite (Qeqb0_proper _ _ (total_act_R _ _ Hc)). destruct (Qeqb (total_act (cont src')) 0).
+    + reflexivity.
+    + simpl. rewrite (total_act_R _ _ Hc). reflexivity.
   - assert (Hreq : rnd (to_storage_vol cf (qv q) P0) * pv == rnd (to_storage_vol cf' (qv q) P0) * pv').
     { rewrite !rnd_eq, !to_storage_vol_spec. unfold pv, pv'. field. split; apply pmult_nz. }
     unfold Qgtb. rewrite (scaled_Qltb _ _ _ _ pv pv' pv_pos pv'_pos Hv Hreq).
-    destruct (Qltb (vol src') _); simpl; [reflexivity|].
-    apply (ratio_of_R _ _ _ _ pv pv' pv_pos pv'_pos Hreq Hv).
-  - apply (ratio_of_R _ _ _ _ 1 1); try reflexivity; [ring | rewrite (total_in_R _ _ (P0, BG) Hc); ring].
+    destruct (Qltb (vol src') _).
+    + reflexivity.
+    + apply (ratio_of_R _ _ _ _ pv pv' pv_pos pv'_pos Hreq Hv).
+  - apply (ratio_of_R _ _ _ _ 1 1); try reflexivity. rewrite (total_in_R _ _ (P0, BG) Hc). ring.
   - apply (ratio_of_R _ _ _ _ (pmult (mol_pfx cf)) (pmult (mol_pfx cf')) (pmult_pos _) (pmult_pos _)).
     + rewrite !to_storage_mol_spec. field. split; apply pmult_nz.
     + apply total_mol_R. exact Hc.
@@ -258,18 +262,18 @@ Proof. intros H. unfold Qmax0. rewrite (Qltb_proper x 0 y 0 H (Qeq_refl 0)). des
 Theorem fill_to_R c c' s q : R c c' -> Rres R (fill_to cf c s q) (fill_to cf' c' s q).
 Proof.
   intros HR. unfold fill_to. destruct (Qle_bool (qv q) 0); [reflexivity|].
-  destruct (qbase q) eqn:Eb; [reflexivity| | |];
-    (pose proof (total_in_R _ _ (P0, qbase q) (R_cont _ _ HR)) as Ht; rewrite Eb in Ht;
-     match goal with |- context [Qltb (rnd (qv q - ?t)) 0] => set (cur := t) in * end;
-     match goal with |- context [Qltb (rnd (qv q - ?t)) 0] => idtac end;
-     idtac).
-  all: match goal with
-       | |- Rres R (if Qltb (rnd (qv q - ?a)) 0 then _ else _) (if Qltb (rnd (qv q - ?b)) 0 then _ else _) =>
-           assert (Hreq : qv q - a == qv q - b) by (rewrite Ht; reflexivity);
-           rewrite (Qltb_proper (rnd (qv q - a)) 0 (rnd (qv q - b)) 0) by (rewrite ?rnd_eq; [exact Hreq | reflexivity]);
-           destruct (Qltb (rnd (qv q - b)) 0); [reflexivity|];
-           apply self_add_R_gen; [exact HR | reflexivity | unfold qv; simpl; rewrite (Qmax0_proper _ _ Hreq); reflexivity]
-       end.
+  assert (Hb : forall b, Rres R
+      (if Qltb (rnd (qv q - total_in cf (cont c) (P0, b))) 0 then Err EValue
+       else self_add cf c s {| qval := Qmax0 (qv q - total_in cf (cont c) (P0, b)); qpfx := P0; qbase := b |})
+      (if Qltb (rnd (qv q - total_in cf' (cont c') (P0, b))) 0 then Err EValue
+       else self_add cf' c' s {| qval := Qmax0 (qv q - total_in cf' (cont c') (P0, b)); qpfx := P0; qbase := b |})).
+  { intros b. pose proof (total_in_R _ _ (P0, b) (R_cont _ _ HR)) as Ht.
+    assert (Hreq : qv q - total_in cf (cont c) (P0, b) == qv q - total_in cf' (cont c') (P0, b)) by (rewrite Ht; reflexivity).
+    assert (E : Qltb (rnd (qv q - total_in cf (cont c) (P0, b))) 0 = Qltb (rnd (qv q - total_in cf' (cont c') (P0, b))) 0)
+      by (apply Qltb_proper; [rewrite !rnd_eq; exact Hreq | reflexivity]).
+    rewrite E. destruct (Qltb (rnd (qv q - total_in cf' (cont c') (P0, b))) 0); [reflexivity|].
+    apply self_add_R_gen; [exact HR | reflexivity|]. unfold qv. simpl. rewrite (Qmax0_proper _ _ Hreq). reflexivity. }
+  destruct (qbase q); [reflexivity | apply Hb | apply Hb | apply Hb].
 Qed.
 
 (* ---------- observers in user units agree ---------- *)
